@@ -167,6 +167,8 @@ def c11 (op : String) (args : List Sexp) : Verdict :=
     else if !mapiterOK Generated.layout_mapiter Generated.reflectMapIterSize then
       .diff s!"mapiter no longer covers the runtime's iterator (pointer prefix / size; reflect iterator state {Generated.reflectMapIterSize} bytes) (C11.mapiter_layout_ok cannot hold)"
     else .ok s!"facts/rows{fs.length}"
+  | "gc", [.atom mode, ty, s, _bs, _bs2, impl] =>
+    c11 "gc" [.atom mode, ty, s, _bs, impl]
   | "gc", [.atom mode, ty, s, _bs, impl] =>
     match parseGoType (normType ty), parseSchema s with
     | some ty, some s =>
